@@ -231,7 +231,11 @@ def gen_cases(rng, tier, h):
 
 def _threaded(rng, c):
     """the same history spread over three worker threads (every operation still strictly after the previous one)"""
-    return [l if l.split()[0] == "mt" else "on %d %s" % (rng.randrange(3), l) for l in c]
+    # only the observer / observable operations: "notified since the previous poll" must hold when the notifying and
+    # the polling thread differ (every operation strictly after the previous one). Time-stamp operations stay on the
+    # main thread: the property orders a thread's own stamps only, so the relative order of stamps drawn on
+    # different threads is not determined and must not be observed.
+    return [("on %d %s" % (rng.randrange(3), l)) if l.split()[0][0] in "bo" or l.split()[0] in ("notify", "poll") else l for l in c]
 
 
 def _gen_all(rng, tier, h):
